@@ -518,6 +518,9 @@ pub fn batch_decode(record: &[u8]) -> Result<BatchDump, String> {
     Ok((start, ops))
 }
 
+/// The LRU cache behind the table cache and the block cache.
+pub use crate::utils::cache::{CacheEntry, LRUCache};
+
 /// A decoded manifest record.
 #[derive(Clone, Debug, Default, PartialEq, Eq)]
 pub struct EditDump {
